@@ -259,7 +259,7 @@ func (g *gen) program(n, ntxEst int) []pstep {
 }
 
 // runHistory executes the programs concurrently on a fresh DB and returns the calls in invocation order
-func runHistory(db *DB, progs [][]pstep, rng *rand.Rand, background bool) []Op {
+func runHistory(db *DB, progs [][]pstep, rng *rand.Rand, background string) []Op {
 	var ctr uint64
 	var mu sync.Mutex
 	var ops []Op
@@ -307,38 +307,35 @@ func runHistory(db *DB, progs [][]pstep, rng *rand.Rand, background bool) []Op {
 		}(gi)
 	}
 	var bg sync.WaitGroup
-	if background {
-		which := os.Getenv("C06_BG") // "", "flush", "compact" (investigation knob; default both)
-		if which != "compact" {
-			bg.Add(1)
-			go func() {
-				defer bg.Done()
-				for {
-					select {
-					case <-stop:
-						return
-					default:
-						db.D.FlushIndex(&schema.FlushIndexRequest{CleanupPercentage: 10, Synced: false})
-						time.Sleep(300 * time.Microsecond)
-					}
+	if background != "" { // "flush" or "flush+compact"
+		bg.Add(1)
+		go func() {
+			defer bg.Done()
+			for {
+				select {
+				case <-stop:
+					return
+				default:
+					db.D.FlushIndex(&schema.FlushIndexRequest{CleanupPercentage: 10, Synced: false})
+					time.Sleep(300 * time.Microsecond)
 				}
-			}()
-		}
-		if which != "flush" {
-			bg.Add(1)
-			go func() {
-				defer bg.Done()
-				for {
-					select {
-					case <-stop:
-						return
-					default:
-						db.D.CompactIndex()
-						time.Sleep(2 * time.Millisecond)
-					}
+			}
+		}()
+	}
+	if background == "flush+compact" {
+		bg.Add(1)
+		go func() {
+			defer bg.Done()
+			for {
+				select {
+				case <-stop:
+					return
+				default:
+					db.D.CompactIndex()
+					time.Sleep(2 * time.Millisecond)
 				}
-			}()
-		}
+			}
+		}()
 	}
 	close(start)
 	wg.Wait()
@@ -349,20 +346,25 @@ func runHistory(db *DB, progs [][]pstep, rng *rand.Rand, background bool) []Op {
 }
 
 const knownText = "Get through an unbound reference is answered from two index states"
+const knownText3 = "history not linearizable while CompactIndex runs concurrently (index re-opened from the compacted copy, wait hub not reset)"
 const knownText2 = "snapshot read (GetAll/Scan/ZScan) with SinceTx > 0 is answered from a reused snapshot older than an acknowledged write"
 
 // record checks a history with the Go transliteration (falsifier) and emits it as one Coq case
 func record(r *vk.Run, ops []Op, bucket string, meta map[string]any) {
+	compaction, _ := meta["background"].(string)
+	compact := compaction == "flush+compact"
 	strict, relaxed, why, tol := Check(ops)
-	if !relaxed {
-		r.Finding(fmt.Sprintf("history not linearizable (%s): %s; history=%s", bucket, why, compact(ops)))
+	if !relaxed && compact {
+		r.Finding(fmt.Sprintf("%s: %s; history=%s", knownText3, why, compactStr(ops)))
+	} else if !relaxed {
+		r.Finding(fmt.Sprintf("history not linearizable (%s): %s; history=%s", bucket, why, compactStr(ops)))
 	} else if !strict {
 		if tol["get-split"] > 0 {
 			r.Finding(fmt.Sprintf("%s (entry and target of the reference read with two look-ups on the live index): %s; history=%s",
-				knownText, why, compact(ops)))
+				knownText, why, compactStr(ops)))
 		}
 		if tol["stale-snapshot"] > 0 {
-			r.Finding(fmt.Sprintf("%s: %s; history=%s", knownText2, why, compact(ops)))
+			r.Finding(fmt.Sprintf("%s: %s; history=%s", knownText2, why, compactStr(ops)))
 		}
 	}
 	// non-trivial: a successful write overlaps in real time a call of another goroutine, and the
@@ -385,7 +387,7 @@ func record(r *vk.Run, ops []Op, bucket string, meta map[string]any) {
 	for k, v := range meta {
 		js[k] = v
 	}
-	r.Case(CoqHist(ops, strict), js, bucket, overlap && okw > 0 && okr > 0)
+	r.Case(CoqHist(ops, strict, compact), js, bucket, overlap && okw > 0 && okr > 0)
 	for i := range ops {
 		res := ops[i].Res.Kind
 		if res == "err" {
@@ -395,7 +397,7 @@ func record(r *vk.Run, ops []Op, bucket string, meta map[string]any) {
 	}
 }
 
-func compact(ops []Op) string {
+func compactStr(ops []Op) string {
 	s := ""
 	for i := range ops {
 		s += fmt.Sprintf("[%d g%d %d-%d %s => %s] ", i, ops[i].G, ops[i].Inv, ops[i].Ret, ops[i].Call.Coq(), ops[i].Res.Coq())
@@ -490,9 +492,16 @@ func concurrentCase(r *vk.Run, thorough bool) error {
 	for i := range progs {
 		progs[i] = g.program(per, ng*per/3)
 	}
-	background := thorough && r.Rng.Intn(2) == 0
+	background := ""
+	if thorough {
+		background = []string{"", "flush", "flush+compact"}[r.Rng.Intn(3)]
+	}
 	ops := runHistory(db, progs, r.Rng, background)
-	record(r, ops, "concurrent:"+g.mode, map[string]any{"goroutines": ng, "background": background})
+	bucket := "concurrent:" + g.mode
+	if background != "" {
+		bucket += "+" + background
+	}
+	record(r, ops, bucket, map[string]any{"goroutines": ng, "background": background})
 	return nil
 }
 
@@ -528,7 +537,7 @@ func sequentialCase(r *vk.Run) error {
 					staleReported = true
 					w := SpecRead2(s, s, &c)
 					r.Finding(fmt.Sprintf("%s: sequential run, call %d %s answered %s, the current state gives %s; run=%s",
-						knownText2, i, c.Coq(), res.Coq(), w.Coq(), compact(ops)))
+						knownText2, i, c.Coq(), res.Coq(), w.Coq(), compactStr(ops)))
 				}
 			}
 		}
@@ -542,7 +551,7 @@ func sequentialCase(r *vk.Run) error {
 				want = w.Coq()
 			}
 			r.Finding(fmt.Sprintf("sequential run: call %d %s answered %s (%s), the specification says %s; run=%s",
-				i, c.Coq(), res.Coq(), res.ErrText, want, compact(ops)))
+				i, c.Coq(), res.Coq(), res.ErrText, want, compactStr(ops)))
 			break
 		}
 		s = ns
